@@ -11,6 +11,9 @@ def run(tier, seed):
     vlib.require(rep["evaluations"] > 100000 and rep["nontrivial"] > 500, "C03 replay too small")
     # the same options on engines loaded from serialized data (random lists, each also run after a reload)
     _, rep_rr = netcommon.mc_and_replay(v, wd, "randr", 300 if tier == "quick" else 3000, False, workers=12, extra=["-seed", str(seed + 3000)])
+    # options of rules added one at a time (Blocker::add_filter histories, incl. a token-less rule with two $domain= values)
+    from checks import enginecommon
+    enginecommon.histories(v, wd, "blocker", 3 if tier == "quick" else 4)
     # the text side: option spellings -> rule AST (Options.tla)
     rep_o = netcommon.option_spellings(v, wd, 2 if tier == "quick" else 3)
     vlib.require(rep_o["nontrivial"] > 300, "option-spelling replay too small")
